@@ -145,6 +145,14 @@ func registerNatives(e *Engine) {
 		ex.eng.rep.Emits = append(ex.eng.rep.Emits, name+"="+ex.emitValue(args[1]))
 		return nil
 	})
+	vp("MkTime", func(ex *Exec, site ssa.Instruction, args []Value) Value {
+		// time.Unix(sec, nsec) in UTC without the division by 1e9: wall = nsec (no monotonic
+		// reading), ext = seconds since year 1, loc = nil
+		tb := ex.tb()
+		sec, nsec := ex.term(args[0]), ex.term(args[1])
+		const unixToInternal = (1969*365 + 1969/4 - 1969/100 + 1969/400) * 86400
+		return &Struct{F: []Value{nsec, tb.Add(sec, tb.ConstI(unixToInternal, 64)), Ptr{}}}
+	})
 	vp("EndPath", func(ex *Exec, site ssa.Instruction, args []Value) Value {
 		panic(pathEnd{kind: endReturn})
 	})
@@ -442,7 +450,12 @@ func registerNatives(e *Engine) {
 		return ex.concStr(strings.ToLower(conc(ex, args[0], "strings.ToLower")))
 	}
 	n["strings.TrimSpace"] = func(ex *Exec, site ssa.Instruction, args []Value) Value {
-		return ex.concStr(strings.TrimSpace(conc(ex, args[0], "strings.TrimSpace")))
+		in := conc(ex, args[0], "strings.TrimSpace")
+		out := strings.TrimSpace(in)
+		if out == in {
+			return args[0] // unchanged: keeps any ghost state of the string
+		}
+		return ex.concStr(out)
 	}
 	n["strings.Split"] = func(ex *Exec, site ssa.Instruction, args []Value) Value {
 		parts := strings.Split(conc(ex, args[0], "strings.Split"), conc(ex, args[1], "strings.Split"))
